@@ -56,6 +56,9 @@ REG = {
  'C16': ('exploration', 'recorded real-time timelines validated by TLC against a TLA+ acceptor of discrete-time definitions (TimedTrace.tla); TLA+ Level-2 model of Delay (DelayImpl.tla) checked by TLC',
          'Real time cannot be driven from a model, so the time-driven operators are run on seeded timelines and their recorded traces (monotonic microsecond timestamps taken before the harness acts and inside the observer) are validated event by event against TimedTrace.tla, which asserts only lower bounds on time and order/count relations - load can only make a run later, never produce a false alarm. DelayImpl.tla shows that the two-lock hand-over-hand queue with unordered timer callbacks is FIFO and never early.',
          'exploration: seeded timelines, not exhaustive; durations 2-13 ms', '6/C16'),
+ 'C20': ('exploration', 'recorded rate-limiter runs validated by TLC against a TLA+ acceptor (RateLimitTrace.tla)',
+         'The rate limiters are driven by real time; seeded key distributions and arrival timelines are run on the native and the ulule limiter and the recorded traces are validated by TLC: per-key order-preserving subsequence without duplicates, the alignment-independent quota bound over every pair of passed items of a key, key independence, propagation of completion and error.',
+         'exploration: seeded timelines; bound quota*(L div window + 2) with L over-estimated', '6/C20'),
 }
 NA_REASON = 'check not built yet (framework under construction); planned, see DESIGN.md section 6'
 
